@@ -623,6 +623,15 @@ def t_comment_space(facts, res, tier):
             for x in walk(n):
                 if x.get("k") == "mcall" and x["method"] in ("push", "push_str") and root_name(x["recv"]) == "uncommented_buf" and x["args"] and x["args"][0].get("k") == "lit" and str(x["args"][0].get("v")).strip() == "":
                     ok = True
+                    # the blank goes in whatever characters surround the comment: the only condition allowed is that something precedes it
+                    for y in walk(n):
+                        if y.get("k") == "if" and any(z is x for z in walk(y["then"])):
+                            ct = norm(y["cond"]).strip("()")
+                            res.inst("T-COMMENT-SPACE:process:condition", True, {"blank_inserted_if": ct[:80]})
+                            if ct not in ("!uncommented_buf.is_empty()", "!uncommented_buf.is_empty", "uncommented_buf.len()>0", "uncommented_buf.len()!=0"):
+                                res.fail("T-COMMENT-SPACE:process:condition", facts.where(fn, y),
+                                         "the blank that replaces a block comment is only inserted when `%s`: a comment between two operator characters or before `*` / `{` then "
+                                         "glues them together (`j &/*c*/& k` becomes `j && k`, `-/*c*/-j` becomes `--j`)" % ct[:80])
     if not ok:
         res.fail("T-COMMENT-SPACE:process:no-separator", facts.where(fn, site),
                  "when a block comment ends and text follows on the same line, nothing is put between what preceded the comment and what follows it: "
